@@ -678,4 +678,96 @@ func checkC05(c *Ctx, r *Report) {
 			r7.Check(!fromParam, "getActiveDial: worker ctx does not derive from a caller's context", instrPos(st), 1, "", "the first caller's cancellation would cancel every later caller's dial", "")
 		}
 	}
+
+	// ---- R8 ---------------------------------------------------------------
+	r8 := r.Rule("C05-R8", "E1", 4, "nothing is left behind: the peer's counter of active dials is forgotten only at zero; a dial whose result nobody takes any more closes the connection it obtained; the worker clears the peer's waiting dials when it ends")
+	if f := r8.need("(*" + dlT + ").freePeerToken"); f != nil {
+		apK := dlT + ".activePerPeer"
+		isLk := func(v ssa.Value) (*ssa.Lookup, bool) {
+			lk, ok := resolveLoad(strip2(v)).(*ssa.Lookup)
+			return lk, ok && isLoadOfField(apK)(strip2(lk.X))
+		}
+		updates := findInstrs(f, func(in ssa.Instruction) bool {
+			mu, ok := in.(*ssa.MapUpdate)
+			return ok && isLoadOfField(apK)(strip2(mu.Map))
+		})
+		// the count that remains: the entry read again after it was decremented, or entry - 1
+		isCnt := func(v ssa.Value) bool {
+			if lk, ok := isLk(v); ok {
+				for _, st := range updates {
+					if (st.Block() == lk.Block() && instrIndex(st) < instrIndex(lk)) || (st.Block() != lk.Block() && st.Block().Dominates(lk.Block())) {
+						return true
+					}
+				}
+				return false
+			}
+			bo, ok := resolveLoad(strip2(v)).(*ssa.BinOp)
+			if !ok {
+				return false
+			}
+			k, isC := constInt(bo.Y)
+			_, isL := isLk(bo.X)
+			return isL && isC && ((bo.Op == token.SUB && k == 1) || (bo.Op == token.ADD && k == -1))
+		}
+		zero := func(v ssa.Value) bool { k, ok := constInt(v); return ok && k == 0 }
+		dels := findInstrs(f, func(in ssa.Instruction) bool {
+			return isCallTo(in, "builtin.delete") && isLoadOfField(apK)(strip2(callArgs(in.(ssa.CallInstruction))[0]))
+		})
+		atZero := anyEdge(eqEdge(isCnt, zero, true), edgeExcl(isCnt, zero, ordGT))
+		if len(dels) == 0 {
+			r8.OK("freePeerToken: the active-dials counter is forgotten only at zero", f.Pos(), 1, "not decided: the entry is never deleted here")
+		} else {
+			r8.guard(f, "forget the peer's counter", dels, "it is zero", atZero, nil)
+		}
+	}
+	if f := r8.need("(*" + dlT + ").executeDial"); f != nil {
+		var dial ssa.Instruction
+		for _, in := range findInstrs(f, func(in ssa.Instruction) bool {
+			call, ok := in.(*ssa.Call)
+			if !ok {
+				return false
+			}
+			fl, _ := loadOfField(strip2(call.Call.Value))
+			return fl != nil && fl.Name() == "dialFunc"
+		}) {
+			dial = in
+		}
+		sels := findInstrs(f, func(in ssa.Instruction) bool { _, ok := in.(*ssa.Select); return ok })
+		if dial == nil || len(sels) != 1 {
+			r8.OK("executeDial: an undelivered connection is closed", f.Pos(), 1, "not decided: dial call / result select not identified")
+		} else {
+			sel := sels[0].(*ssa.Select)
+			sendArm := int64(-1)
+			for i, st := range sel.States {
+				if st.Send != nil {
+					sendArm = int64(i)
+				}
+			}
+			isCon := func(v ssa.Value) bool {
+				ex, ok := resolveLoad(strip2(v)).(*ssa.Extract)
+				return ok && ex.Index == 0 && ex.Tuple == dial.(ssa.Value)
+			}
+			isIdx := func(v ssa.Value) bool {
+				ex, ok := strip2(v).(*ssa.Extract)
+				return ok && ex.Index == 0 && ex.Tuple == ssa.Value(sel)
+			}
+			closes := findInstrs(f, func(in ssa.Instruction) bool {
+				return calleeNameIs(in, "Close") && derivesFrom(callArgs(in.(ssa.CallInstruction))[0], isCon)
+			})
+			delivered := eqEdge(isIdx, func(v ssa.Value) bool { k, ok := constInt(v); return ok && k == sendArm }, true)
+			w, n := (&Cut{Fn: f, From: []ssa.Instruction{sel}, Target: isRetInstr, Sep: inSet(closes), EdgeCut: anyEdge(delivered, edgeNil(isCon, true))}).Run(c)
+			r8.Check(w == "" && sendArm >= 0, "executeDial: a connection whose result nobody takes is closed", instrPos(sel), n+1, "", "the caller gave up: the connection just obtained belongs to nobody and stays open", w)
+		}
+	}
+	if f := r8.need("(*" + dwT + ").loop"); f != nil {
+		clearK := "(*" + dlT + ").clearAllPeerDials"
+		clears := findInstrs(f, func(in ssa.Instruction) bool {
+			if d, ok := in.(*ssa.Defer); ok {
+				return calleeKey(d) == clearK
+			}
+			return isCallTo(in, clearK)
+		})
+		w, n := (&Cut{Fn: f, Target: isRetInstr, Sep: inSet(clears)}).Run(c)
+		r8.Check(w == "" && len(clears) >= 1, "dialWorker.loop: the peer's waiting dials are cleared when the worker ends", f.Pos(), n+1, "", "jobs of a finished worker stay queued in the limiter and are started later for nobody", w)
+	}
 }
